@@ -42,13 +42,39 @@ def run(chk, ctx) -> None:
     chk.ob('C14.offer', 'State._begin_showdown', ok and n > 0, fi.loc,
            'the choice of run-outs is offered only in cash-game mode, only if not decided yet, and only to players still in the hand',
            want=T.show(gate))
-    # board cards still to come
-    loops = [nd for nd in walk_no_nested(fi.node) if isinstance(nd, ast.For) and 'board_dealing_count' in ast.unparse(nd)]
-    ok = len(loops) == 1 and T.norm(loops[0].iter) == T.spec('range(self.street_index + 1, self.street_count)') \
-        and any(isinstance(s, ast.If) and T.cond(s.test) == T.spec('self.streets[i].board_dealing_count', {'i': ('name', loops[0].target.id)}, boolean=True)
-                for s in loops[0].body)
-    chk.ob('C14.offer', 'State._begin_showdown:board_to_come', ok, ctx.loc(fi, loops[0]) if loops else fi.loc,
-           'the choice is offered only when a later street still deals community cards')
+    # board cards still to come: every way to the offer assumes that some later street deals community cards - read off the paths, so the
+    # scan may be a flag loop, an any(...) over the later streets, or either of them behind an extracted predicate
+    later_i = ('elem', T.spec('range(self.street_index + 1, self.street_count)'))
+    later_j = ('elem', T.spec('range(self.street_index + 1, len(self.streets))'))
+    later_s = ('elem', T.spec('self.streets[self.street_index + 1:]'))
+    forms = {T.spec('self.streets[i].board_dealing_count', {'i': later_i}, boolean=True),
+             T.spec('self.streets[i].board_dealing_count', {'i': later_j}, boolean=True),
+             T.spec('s.board_dealing_count', {'s': later_s}, boolean=True),
+             T.spec('any(self.streets[i].board_dealing_count for i in range(self.street_index + 1, self.street_count))', boolean=True),
+             T.spec('any(self.streets[i].board_dealing_count for i in range(self.street_index + 1, len(self.streets)))', boolean=True),
+             T.spec('any(s.board_dealing_count for s in self.streets[self.street_index + 1:])', boolean=True)}
+    n_with = n_without = 0
+    where = fi.loc
+    for p in ctx.paths(fi):
+        for e in p.writes():
+            if T.root_self_attr(e.term) == 'runout_count_selector_statuses' and e.value == ('const', True):
+                k = p.events.index(e)
+                before = set()
+                for x in p.events[:k]:
+                    if x.kind == 'assume':
+                        before |= set(conjuncts(unversion(x.term)))
+                if ('const', False) in before:
+                    continue        # the flag is still false here: not a way to the offer
+                if before & forms:
+                    n_with += 1
+                else:
+                    n_without += 1
+                    where = ctx.loc(fi, e.node)
+    chk.ob('C14.offer', 'State._begin_showdown:board_to_come', n_with > 0, fi.loc,
+           'the choice is offered only when a later street still deals community cards', got=f'{n_with} way(s) to the offer assume it')
+    chk.ob('C14.offer', 'State._begin_showdown:flag', n_with > 0 and n_without == 0, where,
+           '"community cards are still to come" is decided by the scan of the later streets alone: there is no way to the offer that does not assume it',
+           got=f'{n_without} way(s) to the offer do not assume it')
     # ------------------------------------------------------------------- once
     def writers(attr):
         return sorted(m for m, s in eff.write_sites.items() if any(r == attr for r, _ in s))
@@ -228,9 +254,8 @@ def run(chk, ctx) -> None:
         def floor(self, rule, n):
             return None
     _divmod(_Split(chk), ctx)
-    from .cover import board_rows, showdown_offer_flag
+    from .cover import board_rows
     board_rows(chk, ctx, 'C14.indexing')
-    showdown_offer_flag(chk, ctx)
     # which board the next cards go to: the first board still owed cards (with several boards a street may be dealt in pieces)
     from .c10 import _verifiers
     from .helpers import Refile
